@@ -51,7 +51,7 @@ def run(pid, spec, repo, here, seed):
         # restrict the run to this property
         exp, ben, what = st.parse(p)
         return st.run_one(p, repo=repo, only=pid)
-    with ThreadPoolExecutor(max_workers=8) as ex:
+    with ThreadPoolExecutor(max_workers=14) as ex:
         results = list(ex.map(one, files))
     info['selftest'] = {
         'applied': sum(1 for r in results if r['status'] != 'skipped'),
@@ -75,7 +75,7 @@ def run(pid, spec, repo, here, seed):
 
     def seed_one(s):
         return s, st.run_patch(os.path.join(sdir, s, 'patch.diff'), repo, [pid])
-    with ThreadPoolExecutor(max_workers=6) as ex:
+    with ThreadPoolExecutor(max_workers=12) as ex:
         sres = list(ex.map(seed_one, seeds))
     info['seeded_changes'] = {
         'applied': sum(1 for _, r in sres if r is not None),
@@ -118,7 +118,7 @@ def survey_regression(pid, repo, here):
             return (m, fired)
         finally:
             shutil.rmtree(d, ignore_errors=True)
-    with ThreadPoolExecutor(max_workers=8) as ex:
+    with ThreadPoolExecutor(max_workers=14) as ex:
         res = list(ex.map(one, rel))
     applied = [(m, f) for m, f in res if f is not None]
     lost = ['%s:%d %r -> %r' % (m['file'], m['line'], m['old'][:30], m['new'][:30]) for m, f in applied if m['fired'] and pid in m['fired'] and pid not in f]
